@@ -787,4 +787,268 @@ theorem hRename_view (w : World) (hv : Valid w) (m : NameMap) :
         obtain ⟨a, ha, hab⟩ := renameLayersE_ok_mem hE b hb
         exact rename_arrOK (hv.data_ok a ha) hab
 
+/-! ## `get` -/
+
+/-- the in-place calibration loop of an all-element read writes only into the cells it is given -/
+theorem calibrateCells_spec (d : IdDict) : ∀ (f : List (Name × Nat)) (h : Heap), (f.map (·.2)).Nodup →
+    (∀ out h2, calibrateCells d f h = .ok (out, h2) →
+      calibrateAllE (viewDict h d) (mapV h.cell f) = .ok out ∧ h2.cells.length = h.cells.length ∧
+      (∀ i, i ∉ f.map (·.2) → h2.cells[i]? = h.cells[i]?) ∧
+      h2.cals = h.cals ∧ h2.cfgs = h.cfgs ∧ h2.offs = h.offs ∧ h2.dicts = h.dicts) ∧
+    (∀ e, calibrateCells d f h = .error e → calibrateAllE (viewDict h d) (mapV h.cell f) = .error e) := by
+  intro f
+  induction f with
+  | nil =>
+    intro h _
+    refine ⟨?_, ?_⟩
+    · intro out h2 hr
+      simp only [calibrateCells, Except.ok.injEq, Prod.mk.injEq] at hr
+      obtain ⟨rfl, rfl⟩ := hr
+      exact ⟨rfl, rfl, fun _ _ => rfl, rfl, rfl, rfl, rfl⟩
+    · intro e hr; simp [calibrateCells] at hr
+  | cons x r ih =>
+    intro h hnd
+    simp only [List.map_cons, List.nodup_cons] at hnd
+    have hget : get? (viewDict h d) x.1 = (get? d x.1).map h.calOf := get?_mapV _ _ _
+    cases hk : get? d x.1 with
+    | none =>
+      rw [hk] at hget
+      refine ⟨?_, ?_⟩
+      · intro out h2 hr; simp [calibrateCells, hk] at hr
+      · intro e hr
+        simp only [calibrateCells, hk, Except.error.injEq] at hr
+        subst hr
+        simp only [mapV_cons, calibrateAllE, hget, Option.map_none]
+    | some k =>
+      rw [hk] at hget
+      -- the heap after this column
+      generalize hh1 : (if h.calOf k = 0 then h else
+        ({ h with cells := h.cells.set x.2 (calTok (h.cell x.2) (h.calOf k)) } : Heap)) = h1
+      have h1c : h1.cells.length = h.cells.length ∧ (∀ i, i ≠ x.2 → h1.cells[i]? = h.cells[i]?) ∧
+          h1.cals = h.cals ∧ h1.cfgs = h.cfgs ∧ h1.offs = h.offs ∧ h1.dicts = h.dicts := by
+        subst hh1
+        split
+        · exact ⟨rfl, fun _ _ => rfl, rfl, rfl, rfl, rfl⟩
+        · exact ⟨by simp, fun i hi => List.getElem?_set_ne (Ne.symm hi), rfl, rfl, rfl, rfl⟩
+      obtain ⟨c1, c2, c3, c4, c5, c6⟩ := h1c
+      have hvd : viewDict h1 d = viewDict h d := viewDict_congr (fun e _ => by unfold Heap.calOf; rw [c3])
+      have hmr : mapV h1.cell r = mapV h.cell r := by
+        apply mapV_congr
+        intro e he
+        unfold Heap.cell
+        rw [c2 e.2 (fun hh => hnd.1 (hh ▸ List.mem_map.2 ⟨e, he, rfl⟩))]
+      obtain ⟨ihok, iherr⟩ := ih h1 hnd.2
+      rw [hvd, hmr] at ihok iherr
+      refine ⟨?_, ?_⟩
+      · intro out h2 hr
+        simp only [calibrateCells, hk, hh1] at hr
+        cases hrec : calibrateCells d r h1 with
+        | error e => rw [hrec] at hr; simp at hr
+        | ok q =>
+          obtain ⟨out', h2'⟩ := q
+          rw [hrec] at hr
+          simp only [Except.ok.injEq, Prod.mk.injEq] at hr
+          obtain ⟨rfl, rfl⟩ := hr
+          obtain ⟨i1, i2, i3, i4, i5, i6, i7⟩ := ihok out' h2' hrec
+          refine ⟨?_, i2.trans c1, ?_, i4.trans c3, i5.trans c4, i6.trans c5, i7.trans c6⟩
+          · simp only [mapV_cons, calibrateAllE, hget, Option.map_some, i1]
+          · intro i hi
+            simp only [List.map_cons, List.mem_cons, not_or] at hi
+            rw [i3 i hi.2, c2 i hi.1]
+      · intro e hr
+        simp only [calibrateCells, hk, hh1] at hr
+        cases hrec : calibrateCells d r h1 with
+        | ok q => rw [hrec] at hr; obtain ⟨a, b⟩ := q; simp at hr
+        | error e' =>
+          rw [hrec] at hr
+          simp only [Except.error.injEq] at hr
+          subst hr
+          simp only [mapV_cons, calibrateAllE, hget, Option.map_some, iherr e' hrec]
+
+theorem copyArr_ids_nodup (h : Heap) (a : Arr) : ((h.copyArr a).1.fields.map (·.2)).Nodup := by
+  unfold Heap.copyArr Heap.allocCells
+  simp only
+  have : ((keys a.fields).zip (List.range' h.cells.length (a.fields.map (fun e => h.cell e.2)).length)).map (·.2)
+      = List.range' h.cells.length (a.fields.map (fun e => h.cell e.2)).length := by
+    rw [List.map_snd_zip]
+    simp [keys]
+  rw [this]
+  exact List.nodup_range'
+
+theorem viewLayer_get? {h h' : Heap} {a b : Arr} (hv : viewLayer h' b = viewLayer h a) (n : Name) :
+    (get? b.fields n).map h'.cell = (get? a.fields n).map h.cell := by
+  have := congrArg (fun l => get? l.fields n) hv
+  simpa [viewLayer, get?_mapV] using this
+
+theorem hGet_spec (w : World) (hv : Valid w) (layer : Nat) (t : Option Name) (c : Bool) :
+    (∀ r h', hGet w layer t c = .ok (r, h') →
+      readE (view w) layer t c = .ok r.items ∧ Grows w.heap h' ∧
+      (returnsView w t c → ∃ a n i, w.laser.data[layer]? = some a ∧ t = some n ∧ get? a.fields n = some i ∧
+        r.cells = [(n, i)] ∧ h' = w.heap) ∧
+      (¬ returnsView w t c → r.allNew w.heap)) ∧
+    (∀ e, hGet w layer t c = .error e → readE (view w) layer t c = .error e) := by
+  unfold hGet readE
+  have hlay : (view w).layers[layer]? = (w.laser.data[layer]?).map (viewLayer w.heap) := by
+    simp [view, List.getElem?_map]
+  rw [hlay]
+  cases ha : w.laser.data[layer]? with
+  | none =>
+    refine ⟨fun r h' hr => by simp at hr, fun e hr => ?_⟩
+    simp only [Except.error.injEq] at hr
+    subst hr; rfl
+  | some a =>
+    have haok : ArrOK w.heap a := hv.data_ok a (List.mem_of_getElem? ha)
+    simp only [Option.map_some]
+    have hcal : (view w).cal = viewDict w.heap (w.heap.dict w.laser.cal) := rfl
+    cases t with
+    | some n =>
+      -- the array `data[element]` is taken from: the stored one, or (SRR) a fresh copy
+      generalize hr0 : (if w.laser.srr then w.heap.copyArr a else (a, w.heap)) = r0
+      have hP : viewLayer r0.2 r0.1 = viewLayer w.heap a ∧ Grows w.heap r0.2 ∧
+          (w.laser.srr = true → ∀ e ∈ r0.1.fields, w.heap.cells.length ≤ e.2) ∧
+          (w.laser.srr = false → r0 = (a, w.heap)) := by
+        subst hr0
+        cases w.laser.srr with
+        | true => exact ⟨copyArr_view _ _, copyArr_grows _ _, fun _ => copyArr_fresh _ _, fun hh => by simp at hh⟩
+        | false => exact ⟨rfl, Grows.refl _, fun hh => by simp at hh, fun _ => rfl⟩
+      obtain ⟨p1, p2, p3, p4⟩ := hP
+      have hgetf := viewLayer_get? p1 n
+      have hfl : get? (viewLayer w.heap a).fields n = (get? a.fields n).map w.heap.cell := get?_mapV _ _ _
+      have hgetc : get? (view w).cal n = (get? (w.heap.dict w.laser.cal) n).map w.heap.calOf := get?_mapV _ _ _
+      simp only [readLayerE, hfl, ← hgetf]
+      cases hi : get? r0.1.fields n with
+      | none =>
+        refine ⟨fun r h' hr => by simp at hr, fun e hr => ?_⟩
+        simp only [Except.error.injEq] at hr
+        subst hr; rfl
+      | some i =>
+        simp only [Option.map_some]
+        have hifresh : w.laser.srr = true → w.heap.cells.length ≤ i := fun hs => by
+          have hmem : (n, i) ∈ r0.1.fields := by
+            have : ∀ (l : List (Name × Nat)), get? l n = some i → (n, i) ∈ l := by
+              intro l
+              induction l with
+              | nil => intro h; simp at h
+              | cons x r ih =>
+                intro h
+                rw [get?_cons] at h
+                split at h
+                · next hx => simp only [Option.some.injEq] at h; subst h; subst hx; simp
+                · simp [ih h]
+            exact this _ hi
+          exact p3 hs (n, i) hmem
+        cases c with
+        | false =>
+          simp only [Bool.false_eq_true, if_false]
+          refine ⟨fun r h' hr => ?_, fun e hr => by simp at hr⟩
+          simp only [Except.ok.injEq, Prod.mk.injEq] at hr
+          obtain ⟨rfl, rfl⟩ := hr
+          refine ⟨rfl, p2, ?_, ?_⟩
+          · intro hrv
+            have := p4 hrv.1
+            subst this
+            exact ⟨a, n, i, rfl, rfl, hi, rfl, rfl⟩
+          · intro hnv
+            have hs : w.laser.srr = true := by
+              by_contra hh
+              exact hnv ⟨by simpa using hh, n, rfl, Or.inl rfl⟩
+            intro e he
+            simp only [List.mem_singleton] at he
+            subst he
+            exact hifresh hs
+        | true =>
+          simp only [if_true, hgetc]
+          cases hk : get? (w.heap.dict w.laser.cal) n with
+          | none =>
+            refine ⟨fun r h' hr => by simp at hr, fun e hr => ?_⟩
+            simp only [Except.error.injEq] at hr
+            subst hr; rfl
+          | some k =>
+            simp only [Option.map_some, p2.calOf]
+            by_cases hc0 : w.heap.calOf k = 0
+            · simp only [hc0, if_true]
+              refine ⟨fun r h' hr => ?_, fun e hr => by simp at hr⟩
+              simp only [Except.ok.injEq, Prod.mk.injEq] at hr
+              obtain ⟨rfl, rfl⟩ := hr
+              refine ⟨rfl, p2, ?_, ?_⟩
+              · intro hrv
+                have := p4 hrv.1
+                subst this
+                exact ⟨a, n, i, rfl, rfl, hi, rfl, rfl⟩
+              · intro hnv
+                have hs : w.laser.srr = true := by
+                  by_contra hh
+                  exact hnv ⟨by simpa using hh, n, rfl, Or.inr ⟨k, hk, hc0⟩⟩
+                intro e he
+                simp only [List.mem_singleton] at he
+                subst he
+                exact hifresh hs
+            · simp only [hc0, if_false]
+              refine ⟨fun r h' hr => ?_, fun e hr => by simp at hr⟩
+              simp only [Except.ok.injEq, Prod.mk.injEq] at hr
+              obtain ⟨rfl, rfl⟩ := hr
+              refine ⟨rfl, p2.trans (grows_append _ _), ?_, ?_⟩
+              · intro hrv
+                obtain ⟨_, n', hn', hor⟩ := hrv
+                simp only [Option.some.injEq] at hn'
+                subst hn'
+                rcases hor with h1 | ⟨k', hk', hk0⟩
+                · simp at h1
+                · rw [hk] at hk'
+                  simp only [Option.some.injEq] at hk'
+                  subst hk'
+                  exact absurd hk0 hc0
+              · intro _ e he
+                simp only [List.mem_singleton] at he
+                subst he
+                exact p2.1
+    | none =>
+      have hcv := copyArr_view w.heap a
+      have hcg := copyArr_grows w.heap a
+      have hnv : ¬ returnsView w none c := fun hh => by
+        obtain ⟨_, n, hn, _⟩ := hh
+        simp at hn
+      have hfields : mapV (w.heap.copyArr a).2.cell (w.heap.copyArr a).1.fields = (viewLayer w.heap a).fields := by
+        have := congrArg Layer.fields hcv
+        exact this
+      cases c with
+      | false =>
+        simp only [Bool.false_eq_true, if_false, readLayerE]
+        refine ⟨fun r h' hr => ?_, fun e hr => by simp at hr⟩
+        simp only [Except.ok.injEq, Prod.mk.injEq] at hr
+        obtain ⟨rfl, rfl⟩ := hr
+        refine ⟨?_, hcg, fun hh => absurd hh hnv, fun _ => copyArr_fresh _ _⟩
+        simp only [Except.ok.injEq]
+        rw [← hfields]
+        simp [mapV, List.map_map, Function.comp_def]
+      | true =>
+        simp only [if_true, readLayerE]
+        obtain ⟨hok, herr⟩ := calibrateCells_spec (w.heap.dict w.laser.cal) (w.heap.copyArr a).1.fields
+          (w.heap.copyArr a).2 (copyArr_ids_nodup _ _)
+        have hvd : viewDict (w.heap.copyArr a).2 (w.heap.dict w.laser.cal) = (view w).cal := by
+          rw [hcal]
+          exact viewDict_congr (fun e _ => hcg.calOf e.2)
+        rw [hvd, hfields] at hok herr
+        cases hcc : calibrateCells (w.heap.dict w.laser.cal) (w.heap.copyArr a).1.fields (w.heap.copyArr a).2 with
+        | error e =>
+          refine ⟨fun r h' hr => by simp at hr, fun e' hr => ?_⟩
+          simp only [Except.error.injEq] at hr
+          subst hr
+          exact herr e hcc
+        | ok q =>
+          obtain ⟨out, h2⟩ := q
+          refine ⟨fun r h' hr => ?_, fun e hr => by simp at hr⟩
+          simp only [Except.ok.injEq, Prod.mk.injEq] at hr
+          obtain ⟨rfl, rfl⟩ := hr
+          obtain ⟨i1, i2, i3, i4, i5, i6, i7⟩ := hok out h2 hcc
+          refine ⟨i1, ?_, fun hh => absurd hh hnv, fun _ => copyArr_fresh _ _⟩
+          refine ⟨by rw [i2]; exact hcg.1, ?_, i4.trans hcg.2.2.1, i5.trans hcg.2.2.2.1, i6.trans hcg.2.2.2.2.1,
+            i7.trans hcg.2.2.2.2.2⟩
+          intro i hi
+          rw [i3 i, hcg.2.1 i hi]
+          intro hmem
+          obtain ⟨e, he, hei⟩ := List.mem_map.1 hmem
+          have := copyArr_fresh w.heap a e he
+          omega
+
 end Pew.LaserEdit
